@@ -206,12 +206,19 @@ class Ctx:
         eq, sa, sb = self.same(N, code_v, ref_v)
         if eq:
             return self.ob(rule, instance, True, f"code ≡ reference: {sb[:300]}", site, config)
-        unk_c = _has_unknown(code_v.term if isinstance(code_v, V) else code_v)
-        unk_r = _has_unknown(ref_v.term if isinstance(ref_v, V) else ref_v)
+        ct = code_v.term if isinstance(code_v, V) else code_v
+        rt = ref_v.term if isinstance(ref_v, V) else ref_v
+        unk_c = _has_unknown(ct)
+        unk_r = _has_unknown(rt)
         if unk_r:
             return self.error(rule, instance, f"reference value contains unknowns: {sb[:300]}", site)
         if unk_c:
             return self.error(rule, instance, f"code value left the recognised language (unknown sub-term): {sa[:400]}", site)
+        new_ops = foreign_vocabulary(ct, rt)
+        if new_ops:
+            # the code computes the value with operations the reference formula does not use: the
+            # normal form cannot decide equality (an equivalent rewrite and a fault look alike)
+            return self.error(rule, instance, f"undecided: the code value uses operations outside the vocabulary of the reference formula {sorted(new_ops)[:6]}; code: {sa[:300]}  vs reference: {sb[:300]}", site)
         return self.ob(rule, instance, False, f"code: {sa[:700]}  ≠  reference: {sb[:700]}", site, config)
 
     def shape_is(self, rule, instance, v, dims, site="", config=""):
@@ -237,6 +244,47 @@ class Ctx:
 import ast as _ast
 
 _ENTRY = _ast.parse("def __spec__(): pass").body[0]
+
+
+CORE_OPS = {
+    "const", "sym", "dim", "tuple", "slice", "list", "getitem", "add", "sub", "neg", "mul", "smul", "div", "sdiv", "pow",
+    "matmul", "T", "phi", "not", "and", "or", "lt", "le", "gt", "ge", "eq", "ne", "is", "isnot", "in", "notin", "reshape1",
+    "astype", "dg", "kw", "store", "head", "lv", "loop", "comp", "range", "undef", "truthy", "loopctl", "with_kw", "bitand",
+    "bitor", "invert", "min", "max", "mod", "floordiv", "sqrt", "abs", "zeros", "eye", "int", "len", "shape", "kv", "dict",
+    "method", "fn", "attr", "mcall", "after", "new", "obj", "raises", "stale", "reshape", "transpose", "elem", "key", "enumerate", "zip", "star",
+}
+ANTAGONISTS = [
+    {"argmax", "argmin"}, {"emin", "emax"}, {"amax", "amin", "nanmax", "nanmin"}, {"floor", "ceil", "round", "trunc"}, {"sin", "cos", "tan"},
+    {"any", "all"}, {"sum", "mean", "average", "median", "prod", "count"}, {"svd_U", "svd_Vt", "svd_S"}, {"svds_U", "svds_Vt", "svds_S"},
+    {"rsvd_U", "rsvd_Vt", "rsvd_S"}, {"eigh_w", "eigh_v"}, {"eigsh_w", "eigsh_v"}, {"zeros", "ones", "full"}, {"inv", "pinv"}, {"exp", "log"},
+    {"std", "var"}, {"svd_flip_u", "svd_flip_v"}, {"cumsum", "sum"}, {"sort", "argsort"}, {"where", "where3", "argwhere", "nonzero1"}, {"trace", "sum"},
+    {"norm", "sum"}, {"lse", "sum"}, {"unique", "sort"}, {"append", "extend"}, {"fill_diagonal", "store"}, {"procrustes", "lstsq"},
+]
+
+
+def _vocab(t):
+    out = set()
+    from . import tq
+
+    for x in tq.walk_all(t):
+        if x.op == "call":
+            out.add("call:" + str(x.args[0]))
+        elif x.op == "mcall":
+            out.add("mcall:" + str(x.args[1]))
+        else:
+            out.add(x.op)
+    return out
+
+
+def foreign_vocabulary(code_t, ref_t):
+    """operations of the code value that neither the reference value nor the core algebra
+    nor an antagonist of a reference operation (argmax/argmin, floor/round, ...) uses"""
+    vc, vr = _vocab(code_t), _vocab(ref_t)
+    allowed = set(vr) | CORE_OPS
+    for group in ANTAGONISTS:
+        if group & vr:
+            allowed |= group
+    return {o for o in vc - allowed}
 
 
 def _has_unknown(t):
@@ -305,7 +353,7 @@ def finish(ctx, prop, tier, t0, spec_doc, floor, seed=0):
         rp = os.path.join(VERIF, "evidence", "replay", f"{prop}-{k}.json")
         with open(rp, "w") as fh:
             json.dump({"property": prop, "key": o.key(), **o.as_dict()}, fh, indent=1)
-        print(f"  {o.site}: rule {o.rule} instance {o.instance} [{o.config}]: {o.detail[:900]}")
+        print(f"  {o.site}: rule {o.rule} instance {o.instance} [{o.config}]: {o.detail[:1400]}")
         print(f"VIOLATION property={prop} replay={rp}")
     if errs or n_distinct < floor:
         if n_distinct < floor:
